@@ -102,6 +102,16 @@ type Contract struct {
 	NoFloat  bool
 	External bool
 	Fresh    bool // result freshly allocated
+	Sites    []*SiteAssert
+}
+
+// SiteAssert: an assertion checked in the state just before the N-th call (source order; 0 = every call)
+// to Callee inside the function.
+type SiteAssert struct {
+	Callee string
+	N      int
+	Assume bool // definitional assumption about ghost state (listed in the evidence), not an obligation
+	C      *Clause
 }
 
 type GhostFunc struct {
@@ -139,7 +149,7 @@ func NewSpec() *Spec {
 var clauseKeywords = map[string]bool{"func": true, "tags": true, "requires": true, "ensures": true, "assigns": true,
 	"loop": true, "invariant": true, "decreases": true, "bound": true, "ghost": true, "axiom": true, "smt": true,
 	"trusted": true, "pure": true, "maypanic": true, "package": true, "typeinv": true, "lemma": true, "note": true,
-	"nofloat": true, "fresh": true, "modifies": true, "end": true, "defines": true}
+	"nofloat": true, "fresh": true, "modifies": true, "end": true, "defines": true, "at": true}
 
 // ReadSpecFile reads one contract file.  defaultPkg is the import path used for unqualified keys.
 func (sp *Spec) ReadSpecFile(path, defaultPkg string) error {
@@ -260,6 +270,31 @@ func (sp *Spec) ReadSpecFile(path, defaultPkg string) error {
 				cur.Ensures = append(cur.Ensures, c)
 			}
 			c.Defines = rc.kw == "defines"
+		case "at":
+			// at callee#n assert [tags] label: expr
+			f := strings.Fields(rc.rest)
+			if cur == nil || len(f) < 3 || !(strings.HasPrefix(f[1], "assert") || strings.HasPrefix(f[1], "assume")) {
+				return fmt.Errorf("%s: expected `at callee#n assert expr`", rc.pos)
+			}
+			isAssume := strings.HasPrefix(f[1], "assume")
+			callee, n := f[0], 0
+			if i := strings.Index(callee, "#"); i > 0 {
+				if callee[i+1:] != "*" {
+					n, _ = strconv.Atoi(callee[i+1:])
+				}
+				callee = callee[:i]
+			}
+			kwd := "assert"
+			if isAssume {
+				kwd = "assume"
+			}
+			rest := strings.TrimSpace(strings.SplitN(rc.rest, kwd, 2)[1])
+			tags, label, body := splitTagsLabel(rest)
+			e, err := ParseExpr(body)
+			if err != nil {
+				return fmt.Errorf("%s: %v in %q", rc.pos, err, body)
+			}
+			cur.Sites = append(cur.Sites, &SiteAssert{Callee: callee, N: n, Assume: isAssume, C: &Clause{Kind: kwd, Label: label, Tags: tags, E: e, Text: body, Pos: rc.pos}})
 		case "loop":
 			n, err := strconv.Atoi(strings.Fields(rc.rest)[0])
 			if err != nil || cur == nil {
